@@ -375,7 +375,10 @@ func (g *Gen) Obj(d int) string {
 func (g *Gen) ObjN(d int) string {
 	leaves := lit(`{"a": name.$uppercase(), "b": n.$string(), "c": nest.c.$pad(8, "-")}`, `$`, `$$`, `items[0]`, `items[1]`,
 		`{"u": name, "v": txt.$trim(), "w": id}`, `$merge([one, nest, {"n": n}])`, `items{p: q}`, `items{p: $string(q)}`,
-		`nums{$string($ % 2): $sum($)}`, `s{$substring($, 0, 1): $uppercase($)}`, `groups[0]`, `{"x": nums[0], "y": nums[1], "z": s[0]}`)
+		`nums{$string($ % 2): $sum($)}`, `s{$substring($, 0, 1): $uppercase($)}`, `groups[0]`, `{"x": nums[0], "y": nums[1], "z": s[0]}`,
+		// groups whose value is the group's own item sequence
+		`items{p: $}`, `nums{$string($ % 2): $}`, `s{$substring($, 0, 1): $}`, `items{$string(q % 2): $}`, `recs{P: $}`,
+		`nums{$string($ > 2): $}`, `items{p: $.q}`, `$append(nums, nums){$string($ % 3): $}`)
 	nodes := []func(d int) string{
 		func(d int) string { return `{"a": ` + g.Str(d) + `, "b": ` + g.Str(d) + `}` },
 		func(d int) string { return `{"a": ` + g.Str(d) + `, "b": ` + g.Num(d) + `, "c": ` + g.Bool(d) + `}` },
@@ -390,37 +393,39 @@ func (g *Gen) ObjN(d int) string {
 
 // MapOrd returns a program whose evaluation order or result order follows
 // the iteration order of a Go map with several entries.
-func (g *Gen) MapOrd(d int) string {
+func (g *Gen) MapOrd(d int) (string, bool) {
 	o := g.ObjN(d)
-	switch g.R.Intn(14) {
+	switch g.R.Intn(16) {
 	case 0:
-		return `$keys(` + o + `)`
+		return `$keys(` + o + `)`, false
 	case 1:
-		return o + `.*`
+		return o + `.*`, false
 	case 2:
-		return `$each(` + o + `, function($v,$k){$k & "=" & $string($v)})`
+		return `$each(` + o + `, function($v,$k){$k & "=" & $string($v)})`, false
 	case 3:
-		return `$spread(` + o + `)`
+		return `$spread(` + o + `)`, false
 	case 4:
-		return `$string(` + o + `)`
+		return `$string(` + o + `)`, true
 	case 5:
-		return `$join($keys(` + o + `), ",")`
+		return `$join($keys(` + o + `), ",")`, false
 	case 6:
-		return `$each(` + o + `, function($v,$k){$k.$uppercase() & $v.$string().$length()})`
+		return `$each(` + o + `, function($v,$k){$k.$uppercase() & $v.$string().$length()})`, false
 	case 7:
-		return `(` + o + `).**`
+		return `(` + o + `).**`, false
 	case 8:
-		return `$count(` + o + `.**)`
+		return `$count(` + o + `.**)`, true
 	case 9:
-		return `$map($keys(` + o + `), function($k){$k.$pad(4, "_")})`
+		return `$map($keys(` + o + `), function($k){$k.$pad(4, "_")})`, false
 	case 10:
-		return `$spread(` + o + `).$keys()`
+		return `$spread(` + o + `).$keys()`, false
 	case 11:
-		return `$merge($spread(` + o + `)).*`
-	case 12:
-		return `[` + o + `, ` + g.ObjN(d) + `].$keys()[0]`
+		return `$merge($spread(` + o + `)).*`, false
+	case 12, 14, 15:
+		return g.pick(`[`+o+`, `+g.ObjN(d)+`].$keys()[0]`, `$keys(recs)`, `$keys([rec, val, one])`, `$keys(items)`, `$keys([val, `+o+`])`,
+			// keys that differ from task to task, after a struct
+			`$keys([val, {name: 1}])`, `$keys([rec, {name: n}, one])`, `$keys($append(recs, {name: 1}))`, `$keys([val, {nest.c: 1}])`), false
 	default:
-		return o
+		return o, true
 	}
 }
 
@@ -628,6 +633,7 @@ func (g *Gen) Program(family string, depth int) Program {
 	}
 	for try := 0; ; try++ {
 		var text string
+		outFamily := family
 		switch family {
 		case "str":
 			text = g.Str(depth)
@@ -648,7 +654,15 @@ func (g *Gen) Program(family string, depth int) Program {
 		case "outside":
 			text = g.TransformOutside()
 		case "mapord":
-			text = g.MapOrd(depth)
+			var ins bool
+			text, ins = g.MapOrd(depth)
+			outFamily = "mapord"
+			if ins {
+				// the result is an object (or a count / a JSON text with
+				// sorted keys): it must not depend on the order in which
+				// the members were visited
+				outFamily = "mapobj"
+			}
 		default:
 			panic("unknown family " + family)
 		}
@@ -664,7 +678,7 @@ func (g *Gen) Program(family string, depth int) Program {
 			}
 			continue
 		}
-		return Program{Text: text, Family: family}
+		return Program{Text: text, Family: outFamily}
 	}
 }
 
